@@ -443,6 +443,15 @@ class Tracer(SymEval):
         return ("tuple", [])
 
     def e_if(self, n, env):
+        # the condition of an `if let` is reported to the enclosing block (guard clause: `if let P = v { return .. }` rest)
+        stack = self.__dict__.setdefault("_letx_stack", [])
+        stack.append(None)
+        try:
+            return self._e_if(n, env)
+        finally:
+            self._letx_guard = stack.pop()
+
+    def _e_if(self, n, env):
         cn = strip(n["c"])
         if cn.get("k") == "letx" and "e" not in n:
             n = dict(n, e={"k": "block", "stmts": [], "ty": "()"})
@@ -485,6 +494,7 @@ class Tracer(SymEval):
                     except Unsupported:
                         pass
                     m = app("matches", v, repr(key))
+                    self._letx_stack[-1] = m
                     self.guards.append((m, True))
                     try:
                         tv = self.eval(n["t"], e2)
@@ -499,6 +509,8 @@ class Tracer(SymEval):
                     some_k = repr(key) if is_some else repr(("Some", "_"))
                     return app("match", v, ((some_k, some_v), (repr("None"), none_v)))
         c = self.eval(n["c"], env)
+        if cn.get("k") == "letx" and isinstance(c, Poly):
+            self._letx_stack[-1] = c
         if isinstance(c, tuple) and c and c[0] == "bool":
             if c[1]:
                 return self.eval(n["t"], env)
@@ -604,6 +616,15 @@ class Tracer(SymEval):
                             self.guards.append((c, not t_div))
                             pushed[0] += 1
                             continue
+                if ee.get("k") == "if" and strip(ee["c"]).get("k") == "letx" and "e" not in ee and diverges(ee["t"]):
+                    # `if let P = v { ..; return/break/continue }`: the rest of the block runs when P did not match
+                    self._letx_guard = None
+                    self.eval(e, env)
+                    self._flush_after_stmt(pushed)
+                    if isinstance(self._letx_guard, Poly):
+                        self.guards.append((self._letx_guard, False))
+                        pushed[0] += 1
+                    continue
                 self.eval(e, env)
                 self._flush_after_stmt(pushed)
         if n.get("e") is not None:
